@@ -375,8 +375,11 @@ func enumerate(quick bool, yield func(p *Program)) {
 			}
 		}
 	}
-	// T4  START(string) -> a[string>X] -> pass^k -> b[Y>string] -> END(any)
+	// T4  START(string) -> a[string>X] -> pass^k -> b[Y>string] -> END(any)      (k = 2: nine calls, thorough only)
 	for k := 0; k <= 2; k++ {
+		if quick && k == 2 {
+			continue
+		}
 		for _, x := range U {
 			for _, y := range U {
 				st := cat([]Stage{sL(lam("a", tString, x))}, passes(k, 1)...)
@@ -420,18 +423,24 @@ func enumerate(quick bool, yield func(p *Program)) {
 			}
 		}
 	}
-	// T7  START(string) -> a[string>X] -> pass^k -> branch cond[Y] -> {b[T>string], c[T>string]} -> END(any)
-	for k := 0; k <= 1; k++ {
-		for _, x := range U {
-			for _, y := range U {
-				for _, t := range U {
-					if quick && !(t == x || t == y || t == tAny) {
-						continue
-					}
-					st := cat([]Stage{sL(lam("a", tString, x))}, passes(k, 1)...)
-					st = cat(st, sB(y, lam("b", t, tString), lam("c", t, tString)))
-					emit(fromStages(fmt.Sprintf("lambda-pass%d-branch", k), tString, tAny, st, true))
+	// T7  START(string) -> a[string>X] -> branch cond[Y] -> {b[T>string], c[T>string]} -> END(any)       (branch on a typed node)
+	for _, x := range U {
+		for _, y := range U {
+			for _, t := range U {
+				st := []Stage{sL(lam("a", tString, x)), sB(y, lam("b", t, tString), lam("c", t, tString))}
+				emit(fromStages("lambda-branch", tString, tAny, st, true))
+			}
+		}
+	}
+	// T7b START(string) -> a[string>X] -> p1 -> branch cond[Y] -> {b[T>string], END}; b -> END(any)       (graph only)
+	for _, x := range U {
+		for _, y := range U {
+			for _, t := range U {
+				if quick && !(t == x || t == y || t == tAny) {
+					continue
 				}
+				emit(fromCalls("lambda-pass1-branch-end", tString, tAny, []*Node{lam("a", tString, x), pass("p1"), lam("b", t, tString)},
+					[]Call{edge(START, "a"), edge("a", "p1"), branch("p1", y, "b", END), edge("b", END)}))
 			}
 		}
 	}
@@ -506,21 +515,21 @@ func enumerate(quick bool, yield func(p *Program)) {
 			}
 		}
 	}
-	// G1  fan-out from a pass-through: START(X) -> p1 -> {b[Y1>map], c[Y2>map]} -> END(map)
+	// G1  fan-out from a pass-through: START(X) -> p1 -> {b[Y1>map], c[Y2>map]}; b -> END(map)   (c is a dead end: its output is dropped)
 	for _, x := range U {
 		for _, y1 := range U {
 			for _, y2 := range U {
 				emit(fromCalls("pass-fanout", x, tMap, []*Node{pass("p1"), lam("b", y1, tMap), lam("c", y2, tMap)},
-					[]Call{edge(START, "p1"), edge("p1", "b"), edge("p1", "c"), edge("b", END), edge("c", END)}))
+					[]Call{edge(START, "p1"), edge("p1", "b"), edge("p1", "c"), edge("b", END)}))
 			}
 		}
 	}
-	// G2  two branches on one pass-through: START(X) -> p1; branch cond[Y1] -> {b,c}; branch cond[Y2] -> {b,c}; b,c[any>map] -> END(map)
+	// G2  two branches on one pass-through: START(X) -> p1; branch cond[Y1] -> {b,END}; branch cond[Y2] -> {b,END}; b[any>string] -> END(any)
 	for _, x := range U {
 		for _, y1 := range U {
 			for _, y2 := range U {
-				emit(fromCalls("pass-two-branches", x, tMap, []*Node{pass("p1"), lam("b", tAny, tMap), lam("c", tAny, tMap)},
-					[]Call{edge(START, "p1"), branch("p1", y1, "b", "c"), branch("p1", y2, "b", "c"), edge("b", END), edge("c", END)}))
+				emit(fromCalls("pass-two-branches", x, tAny, []*Node{pass("p1"), lam("b", tAny, tString)},
+					[]Call{edge(START, "p1"), branch("p1", y1, "b", END), branch("p1", y2, "b", END), edge("b", END)}))
 			}
 		}
 	}
